@@ -16,11 +16,6 @@ package paillier
 //@   let dto = as(res(serde.UnmarshalCBOR(data), 0), *publicKeyDTO)
 //@   ensures err == nil ==> res(NewPublicKey(dto.Group), 1) == nil
 
-//@ func (*SecretKey).UnmarshalCBOR
-//@   property C12
-//@   let dto = as(res(serde.UnmarshalCBOR(data), 0), *secretKeyDTO)
-//@   ensures err == nil ==> res(NewSecretKey(dto.Group), 1) == nil
-
 //@ func NewPlaintext
 //@   assumed
 //@   purefn
